@@ -15,7 +15,7 @@ from typing import Dict, List, Optional, Tuple
 
 from .rslex import (Tok, Item, lex, parse_items, render, match_close, match_open, is_p, adj,
                     line_of, norm, LexError, OPEN, CLOSE)
-from .vspec import UnitSpec, FnSpec, Clause, Lift
+from .vspec import UnitSpec, FnSpec, Clause, Lift, WrapSpec
 
 
 class Undecided(Exception):
@@ -896,6 +896,24 @@ class UnitBuilder:
                     [Tok(body[li].kind, body[li].text, body[li].pos, "\n")] + body[li + 1:]
             body = inject_returns(body, fs, fnq)
             body = inject_loops(body, fs, fnq)
+            if fs.tail:
+                d = 0
+                boundary = 1
+                for i, t in enumerate(body[:-1]):
+                    if t.kind == "punct":
+                        if t.text in OPEN:
+                            d += 1
+                        elif t.text in CLOSE:
+                            d -= 1
+                            if d == 1 and t.text == "}":
+                                boundary = i + 1
+                        elif t.text == ";" and d == 1:
+                            boundary = i + 1
+                if boundary >= len(body) - 1:
+                    raise Undecided(f"lost anchor: {fnq} has no tail expression")
+                first = body[boundary]
+                body = body[:boundary] + [syn(x, first.pos, "\n", tag=f"{fnq}.tail") for x in fs.tail] + \
+                    [Tok(first.kind, first.text, first.pos, "\n")] + body[boundary + 1:]
             if fs.entry:
                 body = [body[0]] + [syn(e, body[0].pos, "\n", tag=f"{fnq}.entry") for e in fs.entry] + body[1:]
         if is_trait and not trait_mode:
@@ -1005,12 +1023,133 @@ class UnitBuilder:
             self.out.toks(cut, s, fnq + " (lift)")
             self.out.text(" }\n" + ("}\n" if is_method else ""), kind="gen")
 
+    # -- fragments ---------------------------------------------------------
+    def cut_fragment(self, body: List[Tok], anchor: str, fnq: str) -> List[Tok]:
+        m = re.match(r"^stmts let (\w+)(?:#(\d+))? count (\d+)$", anchor)
+        if m:
+            li, _, semi = find_let(body, m.group(1), int(m.group(2) or 1))
+            end = semi
+            for _ in range(int(m.group(3)) - 1):
+                d = 0
+                j = end + 1
+                while True:
+                    t = body[j]
+                    if t.kind == "punct":
+                        if t.text in OPEN:
+                            d += 1
+                        elif t.text in CLOSE:
+                            if d == 0:
+                                raise Undecided(f"lost anchor: fewer statements than requested after let {m.group(1)} in {fnq}")
+                            d -= 1
+                        elif t.text == ";" and d == 0:
+                            break
+                    j += 1
+                end = j
+            return body[li:end + 1]
+        m = re.match(r"^(match_of|closure_body|expr) chain (\w+)(?:#(\d+)| (\d+))?$", anchor)
+        if m:
+            kind, meth, k = m.group(1), m.group(2), int(m.group(3) or m.group(4) or 1)
+            lo, hi = locate_lift(body, Lift("chain", meth, k, ""), fnq)
+            if kind == "expr":
+                return body[lo:hi + 1]
+            if kind == "match_of":
+                if lo == 0 or body[lo - 1].text != "match":
+                    raise Undecided(f"lost anchor: .{meth}( #{k} in {fnq} is not the scrutinee of a match")
+                j = hi + 1
+                if not is_p(body[j], "{"):
+                    raise Undecided(f"lost anchor: match body after .{meth}( in {fnq}")
+                return body[lo - 1:match_close(body, j) + 1]
+            # closure_body: the call's argument list must be a single closure `|params| body`
+            cnt = 0
+            for i, t in enumerate(body):
+                if t.kind == "ident" and t.text == meth and i > 0 and is_p(body[i - 1], ".") and is_p(body[i + 1], "("):
+                    cnt += 1
+                    if cnt == k:
+                        close = match_close(body, i + 1)
+                        a = i + 2
+                        if body[a].text == "move":
+                            a += 1
+                        if not is_p(body[a], "|"):
+                            raise Undecided(f"lost anchor: argument of .{meth}( #{k} in {fnq} is not a closure")
+                        b = a + 1
+                        while not is_p(body[b], "|"):
+                            b += 1
+                        return body[b + 1:close]
+            raise Undecided(f"lost anchor: .{meth}( #{k} in {fnq}")
+        raise Undecided(f"unknown fragment anchor `{anchor}`")
+
+    def emit_wrap(self, ws: WrapSpec):
+        s = self.source(ws.source)
+        imp, it = s.find_fn(ws.from_header, ws.from_fn)
+        fnq = ws.qual
+        body = it.toks[it.body_open:]
+        frags = {}
+        for name, anchor in ws.frags.items():
+            toks = list(self.cut_fragment(body, anchor, fnq))
+            self.rep.cuts.append({"item": f"{ws.name}.{name} ({anchor})", "file": s.rel,
+                                  "bytes": [toks[0].pos, toks[-1].end], "lines": [s.line(toks[0].pos), s.line(toks[-1].end)]})
+            toks = rule_R1(toks, self.rep)
+            toks = rule_R2(toks, self.rep)
+            toks = rule_R3(toks, self.rep)
+            frags[name] = toks
+            self.rep.rule("R11 fragment cut out of a function body and wrapped in a synthesised fn")
+        lo_line = self.out.line
+        for a in ws.attrs:
+            self.out.text(a + "\n", kind="gen")
+        self.out.text(ws.sig.strip() + "\n", kind="gen")
+        labels = []
+        if self.spec.mode == "verus":
+            if ws.requires:
+                self.out.text("    requires\n", kind="gen")
+                for c in ws.requires:
+                    self.out.text(f"        {c.text}, // @{c.label}\n", kind="label", label=c.label, fn=fnq, clause="requires")
+                    labels.append(c.label)
+            if ws.ensures:
+                self.out.text("    ensures\n", kind="gen")
+                for c in ws.ensures:
+                    self.out.text(f"        {c.text}, // @{c.label}\n", kind="label", label=c.label, fn=fnq, clause="ensures")
+                    labels.append(c.label)
+            self.out.text("    /*CANARY:" + fnq + "*/\n", kind="gen")
+        parts = re.split(r"\{\{(\w+)\}\}", ws.body)
+        for i, part in enumerate(parts):
+            if i % 2 == 0:
+                self.out.text(part, kind="gen")
+            else:
+                if part not in frags:
+                    raise Undecided(f"wrap {ws.name}: unknown fragment {part}")
+                ft = list(frags[part])
+                ft[0] = Tok(ft[0].kind, ft[0].text, ft[0].pos, "")
+                self.out.toks(ft, s, fnq)
+        self.out.text("\n")
+        m = re.search(r"fn\s+(\w+)", ws.sig)
+        self.fn_ranges.append({"qual": fnq, "name": m.group(1) if m else ws.name, "lo": lo_line, "hi": self.out.line, "labels": labels,
+                               "kind": "fn", "no_canary": ws.no_canary or self.spec.mode != "verus", "src": ws.source,
+                               "src_lines": [s.line(it.start), s.line(it.end)]})
+
     # -- whole unit -------------------------------------------------------
     def build(self) -> str:
         o = self.out
+        if self.spec.mode == "rust":
+            o.text("// GENERATED by /verif/vtool/extract.py from the working tree of /repo -- do not edit\n", kind="gen")
+            for lib in self.spec.libs:
+                txt = open(os.path.join(self.libdir, lib)).read()
+                o.text(txt if txt.endswith("\n") else txt + "\n", kind="lib", file=lib)
+            for kind, payload in self.spec.order:
+                if kind == "wrap":
+                    self.emit_wrap(payload)
+                elif kind == "raw":
+                    o.text(payload + "\n", kind="lib", file=os.path.basename(self.spec.path))
+                elif kind == "type":
+                    self.emit_type(*payload)
+                elif kind == "const":
+                    self.emit_const(*payload)
+                else:
+                    raise Undecided(f"directive {kind} not supported in rust mode")
+            self.rep.fns = self.fn_ranges
+            return o.render()
         o.text("// GENERATED by /verif/vtool/extract.py from the working tree of /repo -- do not edit\n"
                "#![allow(unused_imports, dead_code, unused_variables, unused_mut, unused_parens, non_snake_case, unused_assignments)]\n"
-               "use vstd::prelude::*;\nuse vstd::multiset::*;\nverus! {\nglobal size_of usize == 8;\n", kind="gen")
+               "use vstd::prelude::*;\nuse vstd::multiset::*;\nuse std::ops::Range;\nverus! {\nglobal size_of usize == 8;\n", kind="gen")
         for lib in self.spec.libs:
             p = os.path.join(self.libdir, lib)
             txt = open(p).read()
@@ -1025,6 +1164,8 @@ class UnitBuilder:
                 self.emit_fn(payload)
             elif kind == "raw":
                 o.text(payload + "\n", kind="lib", file=os.path.basename(self.spec.path))
+            elif kind == "wrap":
+                self.emit_wrap(payload)
         o.text("} // verus!\nfn main() {}\n", kind="gen")
         self.rep.fns = self.fn_ranges
         return o.render()
